@@ -22,7 +22,7 @@ from vf.mon import ops
 ID = 'C13'
 LEVEL = 'fault_enumeration'
 RULE = ('(a) 24 callable kinds x 5 argument shapes x option sets (recursive, user_requested, context ENABLED/DISABLED/'
-        'UNSPECIFIED) compared with the direct call; (b) conversion decision per kind observed through wrapped operators vs the '
+        'UNSPECIFIED) compared with the direct call, and sequences of such calls on the same callable object under changing context/options (the decision must not depend on earlier calls); (b) conversion decision per kind observed through wrapped operators vs the '
         'documented table; (c) every stage of the pipeline (source lookup, parse, feature check, cfg, each analysis, each '
         'converter, load, factory create/instantiate) x 9 exception classes injected on 3 callable kinds, plus (thorough) '
         'source-free LINE failpoints at sampled positions inside malt/ during conversion; strict mode must raise. A case = one '
@@ -238,6 +238,72 @@ def shapes(args, kwargs):
     yield 'kwargs_none', args, None
 
 
+def expected_policy(name, conv_names, status, rec):
+  expect = set(conv_names)
+  if status == 'DISABLED':
+    expect = set() if name != 'artifact_to_graph' else {'inner'}
+  if not rec:
+    # non-recursive: only the requested function itself, callees stay unconverted
+    expect = expect - {'inner', 'decorated'} if name in ('nested_calls', 'wraps_decorated') else expect
+    if name == 'artifact_to_graph':
+      expect = {'inner'}
+  return expect
+
+
+# sequences of (context status, recursive) under which the same callable object is called one after the other: the
+# decision taken for a call depends on the callable, the options and the context, never on earlier calls
+HISTORIES = [
+    [('DISABLED', True), ('ENABLED', True)],
+    [('DISABLED', True), ('UNSPECIFIED', True), ('DISABLED', True), ('ENABLED', True)],
+    [('ENABLED', True), ('DISABLED', True), ('ENABLED', True)],
+    [('ENABLED', False), ('ENABLED', True), ('ENABLED', False)],
+    [('DISABLED', False), ('ENABLED', False), ('ENABLED', True)],
+    [('UNSPECIFIED', True), ('DISABLED', True), ('UNSPECIFIED', True)],
+]
+
+
+def judge_history(cid, kind_idx, hist_idx, user_req):
+  import malt
+  from malt.impl import api
+  from malt.core import converter, ag_ctx
+  m = diff.load_instance(TARGETS, 'c13')
+  out = {'case': cid, 'verdict': 'ok', 'counters': collections.Counter()}
+  probs = []
+  try:
+    ks = kinds(m, api, malt)
+    name, f, args, kwargs, conv_names = ks[kind_idx]
+    done = []
+    for status, rec in HISTORIES[hist_idx]:
+      o = converter.ConversionOptions(recursive=rec, user_requested=user_req, optional_features=None)
+      want = observe(lambda: f(*args, **(kwargs or {})), m)
+      with OpRecorder() as opr:
+        with ag_ctx.ControlStatusCtx(status=getattr(ag_ctx.Status, status)):
+          got = observe(lambda: api.converted_call(f, args, dict(kwargs) if kwargs else None, options=o), m)
+      out['counters']['calls_compared'] += 1
+      out['counters']['policy_decisions_checked'] += 1
+      out['counters']['calls_with_history'] += 1 if done else 0
+      if got != want:
+        probs.append('%s after %s, ctx=%s recursive=%s: direct call %r, through the wrapper %r' % (name, done, status, rec, want, got))
+        break
+      expect = expected_policy(name, conv_names, status, rec)
+      if opr.names != expect:
+        probs.append('%s ctx=%s recursive=%s user_requested=%s, after the calls %s: control-flow operators fired in %s, '
+                     'documented policy says %s' % (name, status, rec, user_req, done, sorted(opr.names), sorted(expect)))
+        break
+      done.append((status, rec))
+  finally:
+    diff.unload(m)
+  out['counters'] = dict(out['counters'])
+  if probs:
+    out['verdict'] = 'violation'
+    out['detail'] = probs[0]
+    out['witness'] = {'kind': 'history', 'kind_idx': kind_idx, 'hist_idx': hist_idx, 'user_req': user_req}
+    return out
+  out['nontrivial'] = True
+  out['sig'] = 'H|%s|%d|%s' % (name, hist_idx, user_req)
+  return out
+
+
 def judge_transparency(cid, kind_idx, rec, user_req, status):
   import malt
   from malt.impl import api
@@ -264,14 +330,7 @@ def judge_transparency(cid, kind_idx, rec, user_req, status):
         probs.append('%s: conversion failed and fell back: %s' % (name, fallback[0][:200]))
         break
       # policy
-      expect = set(conv_names)
-      if status == 'DISABLED':
-        expect = set() if name != 'artifact_to_graph' else {'inner'}
-      if not rec:
-        # non-recursive: only the requested function itself, callees stay unconverted
-        expect = expect - {'inner', 'decorated'} if name in ('nested_calls', 'wraps_decorated') else expect
-        if name == 'artifact_to_graph':
-          expect = {'inner'}
+      expect = expected_policy(name, conv_names, status, rec)
       out['counters']['policy_decisions_checked'] += 1
       if opr.names != expect:
         probs.append('%s recursive=%s user_requested=%s ctx=%s: control-flow operators fired in %s, documented policy says %s' % (
@@ -534,6 +593,11 @@ def run_slice(spec):
         out['sample'] = {'case': out['case'], 'what': 'converted_call vs direct call, operators observed vs documented policy',
                          'calls_compared': out['counters'].get('calls_compared')}
       yield out
+    hist = [(ki, hi, ur) for ki in range(nk) for hi in range(len(HISTORIES)) for ur in (True, False)]
+    for idx, (ki, hi, ur) in enumerate(hist):
+      if idx % spec['parts'] != spec['part']:
+        continue
+      yield judge_history('C13h/%d/%d/%s' % (ki, hi, ur), ki, hi, ur)
   elif spec['kind'] == 'fault':
     ns, ne = len(stages()), len(exc_classes())
     combos = [(s, e, t) for s in range(ns) for e in range(ne) for t in range(len(FAULT_TARGETS))]
@@ -558,6 +622,8 @@ def run_slice(spec):
 def replay(w):
   if w['kind'] == 'transparency':
     return judge_transparency('replay', w['kind_idx'], w['rec'], w['user_req'], w['status'])
+  if w['kind'] == 'history':
+    return judge_history('replay', w['kind_idx'], w['hist_idx'], w['user_req'])
   if w['kind'] == 'fault':
     return judge_fault('replay', w['stage_idx'], w['exc_idx'], w['tgt_idx'], w.get('strict', False))
   return judge_line_fault('replay', w['seed'], w['k_frac'])
